@@ -1,0 +1,23 @@
+// SPDX-FileCopyrightText: 2023 The Pion community <https://pion.ly>
+// SPDX-License-Identifier: MIT
+
+//go:build verif
+
+package rtp
+
+import (
+	"time"
+)
+
+// VerifSetPacketizerClock replaces the clock a Packetizer made by NewPacketizer reads for the
+// abs-send-time extension. Verification hook (build tag verif), not part of the API.
+// It reports whether p is the package's own packetizer.
+func VerifSetPacketizerClock(p Packetizer, clock func() time.Time) bool {
+	pp, ok := p.(*packetizer)
+	if !ok {
+		return false
+	}
+	pp.timegen = clock
+
+	return true
+}
